@@ -1,6 +1,6 @@
 CONSTANTS
   Lens = {0, 1, 2, 3, 64}
-  BaseTables = {"minimal", "odd", "even", "mixed", "zeros", "max"}
+  BaseTables = {"minimal", "tiny", "odd", "even", "mixed", "zeros", "max"}
   Targets = {"cls", "inst", "ts", "impl", "ivn", "src", "snd", "rcv", "pcu", "ver", "priv", "gl", "other2", "foreign", "nested"}
   ActNames = {"Remove","Empty","SetVr","Truncate","PushStr","PushU16","SetStr","Set","SetIfMissing","SetStrIfMissing","Replace","ReplaceStr"}
   MaxLen = 3
@@ -8,7 +8,7 @@ CONSTANTS
   DeepBases = {"minimal", "mixed"}
   DeepTargets = {"cls", "ts", "ivn", "src", "pcu", "priv", "other2"}
   DeepActNames = {"Remove","Empty","Truncate","SetStr","SetIfMissing","Replace","PushStr"}
-  FileBases = {"odd", "even", "mixed"}
+  FileBases = {"tiny", "odd", "even", "mixed"}
 SPECIFICATION GSpec
 VIEW View
 CHECK_DEADLOCK FALSE
